@@ -22,6 +22,7 @@ semantics (same operations, same order, same exceptions); nothing is executed.  
 
   STAR     [*x] -> list(x);   CHAIN   a < b < c -> a < b and b < c (shared operands plain names / constants)
   LOCALCONST  a local bound once at the top level of a function to a literal is replaced by the literal where it is read afterwards
+  CLASSDEFAULT  a class-level literal default of a class with __init__ is written as `self.name = literal` at the top of __init__
   CONST    a private module-level name bound once to a literal constant is replaced by the literal inside functions (see constprop)
 
 `LOKYSA_CANON=-LOOP,-SWAP` disables passes (debugging).  The count of rewrites per pass is kept in STATS.
@@ -308,8 +309,43 @@ class Canon(ast.NodeTransformer):
         return self._bodies(node)
 
     def visit_ClassDef(self, node):
+        if _on("CLASSDEFAULT"):
+            _class_defaults(node)
         self.generic_visit(node)
         return self._bodies(node)
+
+
+def _class_defaults(cls):
+    """CLASSDEFAULT: a class-level `name = <literal>` (or `name: T = <literal>`) of a class that defines `__init__` is the default every
+    instance sees until it rebinds the attribute: written as `self.name = <literal>` at the top of `__init__` it gives the instances
+    the same values (the two differ only for code that reads the attribute on the class itself or inspects `vars(obj)`, which the
+    analysed package does not do for such flags).  Dunder names and classes with `__slots__` are left alone."""
+    init = next((s for s in cls.body if isinstance(s, ast.FunctionDef) and s.name == "__init__"), None)
+    if init is None or not init.args.args or any(isinstance(s, ast.Assign) and any(isinstance(t_, ast.Name) and t_.id == "__slots__" for t_ in s.targets) for s in cls.body):
+        return
+    selfn = init.args.args[0].arg
+    moved = []
+    keep = []
+    for s in cls.body:
+        tgt = s.targets[0] if isinstance(s, ast.Assign) and len(s.targets) == 1 else s.target if isinstance(s, ast.AnnAssign) and s.value is not None else None
+        if isinstance(tgt, ast.Name) and not tgt.id.startswith("__") and isinstance(s.value, ast.Constant) \
+                and isinstance(s.value.value, (int, float, str, bytes, bool, type(None))) \
+                and not any(isinstance(n, ast.Name) and n.id == tgt.id for s2 in cls.body if s2 is not s and not isinstance(s2, (ast.FunctionDef, ast.AsyncFunctionDef)) for n in ast.walk(s2)):
+            moved.append((tgt.id, s.value, s))
+        else:
+            keep.append(s)
+    if not moved:
+        return
+    new = []
+    for name, val, s in moved:
+        _hit("CLASSDEFAULT")
+        a = ast.Assign(targets=[ast.Attribute(value=ast.Name(id=selfn, ctx=ast.Load()), attr=name, ctx=ast.Store())], value=val)
+        new.append(ast.copy_location(a, s))
+        ast.fix_missing_locations(new[-1])
+    body = init.body
+    k = 1 if body and isinstance(body[0], ast.Expr) and isinstance(body[0].value, ast.Constant) and isinstance(body[0].value.value, str) else 0
+    init.body = body[:k] + new + body[k:]
+    cls.body = keep or [ast.copy_location(ast.Pass(), cls)]
 
 
 def _local_constants(fn):
